@@ -4,7 +4,7 @@ Tie: per call (consumed, produced bytes, return value incl. exact error code / h
 == the real LZ4F_decompress / _usingDict / getFrameInfo / headerSize, ASan build, exact-size buffers.
 Direct oracles on the real code: same verdict and content under every chunking/capacity; complete => content ==
 Spec.frame_decode (extracted) and consumed == the frame; header accepted <=> Spec.parse_desc accepts; progress."""
-import random, hashlib, struct, collections, itertools
+import random, hashlib, struct, collections, itertools, ctypes
 import framedlib as F
 import declib, gens
 from capi import Buf, Prefs
@@ -14,8 +14,10 @@ ORACLES = ["framed"]
 THEOREMS = ["C08_header_iff", "C08_headerSize_spec", "C08_wf_invariant", "C08_staging_in_bounds", "C08_no_fuel_out",
             "C08_progress", "C08_reports_within_given", "C08_complete_sound_oneshot", "C08_complete_sound_oneshot_usingDict",
             "C08_chunking_sound", "C08_chunking_complete", "C08_chunking_reaches", "C08_chunking_independent",
-            "C08_chunking_sound_usingDict", "C08_chunking_complete_usingDict", "C08_chunking_reaches_usingDict"]
+            "C08_chunking_sound_usingDict", "C08_chunking_complete_usingDict", "C08_chunking_reaches_usingDict",
+            "C08_ddict_rides_along", "C08_tmpOut_in_bounds_partial", "C08_op_okb_sound", "C08_dict_is_history_refuted"]
 CORRESPONDENCE = ["FrameD.decompress / decompress_usingDict model == LZ4F_decompress(_usingDict): per call (consumed, produced, dst bytes, return value / error code)",
+                  "FrameDDict (dd_decompress / dd_decompress_usingDict / dd_getFrameInfo) == the real dctx after every call: dict (NULL / tmpOutBuffer+offset / caller address), dictSize, tmpOut-tmpOutBuffer, tmpOutSize, tmpOutStart; plus the model's memory operations of the call satisfy ops_okb",
                   "FrameD.getFrameInfo / headerSize model == LZ4F_getFrameInfo / LZ4F_headerSize (consumed, return value, reported fields)"]
 RULE = ("frames built from parts in Python (header fields x raw/compressed/empty blocks from an independent sequence encoder x block/content "
         "checksums x content size x dictID x dictionaries), liblz4-made frames for volume, mutations, ALL single-bit flips and ALL truncations of "
@@ -23,13 +25,14 @@ RULE = ("frames built from parts in Python (header fields x raw/compressed/empty
         "alphabets, skippable frames (16 magics, sizes 0..), multi-frame buffers with trailing bytes, linked blocks over >64KB; directed families: "
         "'recycle' (linked, > maxBlockSize+128KB of uncompressed blocks through small dst buffers, then far matches), 'maxblock' (stored block size == "
         "maxBlockSize staged through tmpIn, internal allocation sizes compared with the model), 'skipleak' (skipChecksums on frame k, checksum-only "
-        "damage on frame k+1), 'infodict' (getFrameInfo then decompress_usingDict), 'infoskip' (getFrameInfo on a skippable frame, the rest through LZ4F_decompress in small pieces); each byte string under "
+        "damage on frame k+1), 'infodict' (getFrameInfo then decompress_usingDict), 'infoskip' (getFrameInfo on a skippable frame, the rest through LZ4F_decompress in small pieces), 'ddstale' (replay of the witness of C08_dict_is_history_refuted: the real tmpOutBuffer bytes are read back); each byte string under "
         "chunkings {whole, 1-byte, header-splitting, random, hint-following} x capacities {1,7,bs-1,bs,large,random incl. 0/NULL} x skipChecksums x "
         "stableDst x {fresh exact dst per call, advancing window}. non-trivial = a session that got past the frame header (block or skippable stage); "
         "distinct = distinct (bytes, chunking, capacity policy, options)")
 TRUSTED = ["hand-written model Model/FrameD.v of LZ4F_decompress & co, tied by the per-call comparison only",
            "block decoding inside the model is Spec.spec_decode (LZ4_decompress_safe_usingDict vs the spec is property C05); differences that stem only from it are classified (endcond: benign, offset 0: known finding F5)",
-           "dictionary relocation inside tmpOutBuffer (LZ4F_updateDict, lz4frame.c:1530-1595, 2084-2114) is abstracted in the model to 'history = last 64KB of dictionary ++ output'; its pointer juggling is covered by the correspondence runs only (capacity < blockSize with linked blocks, moving/advancing dst, stableDst 0/1, >64KB of linked blocks, dictionaries)",
+           "dictionary relocation inside tmpOutBuffer (LZ4F_updateDict, lz4frame.c:1530-1595, decode destination 1889-1962, flushOut, 'preserve history' 2084-2114): Model/FrameD.v abstracts it to 'history = last 64KB of dictionary ++ output'; Model/FrameDDict.v keeps the concrete fields (dict as NULL / tmpOutBuffer+offset / caller address, dictSize, tmpOut offset, tmpOutSize, tmpOutStart) and is tied to the real dctx after EVERY LZ4F_decompress call (fields read through harness/c/framed_peek.c; real dst / dictionary addresses given to the model); the oracle also evaluates the bounds check ops_okb (C08_op_okb_sound) on the memory operations of every call. Proved: function-level bounds (C08_tmpOut_in_bounds_partial). NOT proved: that the stage machine meets the side conditions on every session (C08_tmpOut_in_bounds_full_statement), and that the last min(dictSize,64KB) bytes at dict are the history when a block is decoded (the literal statement about all dictSize bytes is refuted: C08_dict_is_history_refuted, replayed by the 'ddstale' cases); these two remain covered by the correspondence runs only",
+           "Model/FrameDDict.v: a tmpOutBuffer pointer never equals a caller pointer (the allocation is not adjacent to caller memory); on a decoding error the C code may already have moved tmpOut / trimmed the dictionary (the model leaves the bookkeeping untouched; contexts are not resumable after an error)",
            "XXH32 in the model is Spec.XXH32 (written from the xxHash specification)"]
 ASSUMPTIONS = ["malloc succeeds", "callers do not continue on a context after an error without LZ4F_resetDecompressionContext (documented contract)",
                "content sizes below 2^64 bytes"]
@@ -67,6 +70,7 @@ def gen_cases(tier, seed):
         add("recycle", 1, bsid=4, ccrc=True, sessions=3)
         add("recycle", 1, bsid=4, small_blocks=True, sessions=3)
         add("maxblock", 1, bsid=4, raw=False, bcrc=True, sessions=3)
+        add("ddstale", 1); add("ddstale", 2, rand=True)
         add("maxblock", 1, bsid=5, raw=False, bcrc=True, sessions=2)
         add("maxblock", 1, bsid=4, raw=True, bcrc=True, sessions=2)
         add("skipleak", 8)
@@ -91,6 +95,7 @@ def gen_cases(tier, seed):
         for b in (4, 5):
             add("maxblock", 2, bsid=b, raw=False, bcrc=True, sessions=3)
             add("maxblock", 1, bsid=b, raw=True, bcrc=True, sessions=2)
+        add("ddstale", 1); add("ddstale", 4, rand=True)
         add("skipleak", 30)
         add("infodict", 20)
         add("infoskip", 10)
@@ -116,6 +121,7 @@ def gen_cases(tier, seed):
                 for bc in (True, False):
                     add("maxblock", 2 if b <= 5 else 1, bsid=b, raw=raw, bcrc=bc, sessions=4 if b <= 5 else 3, nomodel=(b >= 6))
         add("maxblock", 1, bsid=4, raw=False, bcrc=True, sessions=1, one=True)
+        add("ddstale", 1); add("ddstale", 8, rand=True)
         add("skipleak", 100)
         add("infodict", 80)
         add("infoskip", 40)
@@ -432,6 +438,58 @@ def k_recycle(st, acc, rng, case):
             acc.fail("corr_fail", "model/code disagree: " + str(r["corr"]), det)
         acc.keys.add(hashlib.sha1(fr + repr(sorted(p.items())).encode()).hexdigest())
 
+def k_ddstale(st, acc, rng, case):
+    """Directed replay of Proofs.FrameDDictProofs.wit_run (theorem C08_dict_is_history_refuted) on the real library:
+    linked frame, bsid 4, a stored block of 61440 bytes then a block decoding to 10241 bytes; first call with the whole
+    input and capacity 61441 (stableDst = 0).  Afterwards dict = tmpOutBuffer and dictSize = 61441 on both sides (the
+    Session compares the bookkeeping), the bytes tmpOutBuffer[6145, 61441) are the history, tmpOutBuffer[0, 6145) are
+    not (never written: stat ddstale_prefix_is_not_history), and the rest of the frame still decodes to the right content
+    (the decoder only reaches back < 64 KB)."""
+    blk2 = bytes([31, 97, 1, 0]) + b"\xff" * 40 + bytes([16, 80, 98, 98, 98, 98, 98])
+    first = bytes([7]) * 61440 if not case.get("rand") else rng.randbytes(61440)
+    tail = rng.randbytes(rng.choice([0, 5, 300]))
+    content = first + b"a" * 10236 + b"bbbbb" + tail
+    fr = F.header(4, False, False, None, False, None) + F.block(first, True, False) + F.block(blk2, False, False) \
+         + (F.block(tail, True, False) if tail else b"") + struct.pack("<I", 0)
+    s = F.Session(st)
+    det = {"data": "len=%d md5=%s" % (len(fr), md5(fr)), "bseed": case["bseed"]}
+    try:
+        kind, info = s.call(fr, 61441)
+        acc.evals += 1
+        if kind != "ok":
+            acc.fail("prop_fail", "ddstale first call: %s %s" % (kind, info), det); return
+        cons, out, ret = info
+        lib = st["lib"]
+        if getattr(lib, "ddpeek", False) and hasattr(lib.L, "verif_dctx_tmpOutBuffer"):
+            lib.L.verif_dctx_tmpOutBuffer.restype = ctypes.c_ulonglong; lib.L.verif_dctx_tmpOutBuffer.argtypes = [ctypes.c_void_p]
+            dd = lib.ddstate(s.cd.ctx)
+            acc.stats["ddstale_state_" + dd.replace(",", "_")] += 1
+            if dd != "1,0,61441,61440,10241,1":
+                acc.fail("corr_fail", "ddstale: bookkeeping after the witness call is %s, the model (wit_facts) has 1,0,61441,61440,10241,1" % dd, det); return
+            tb = lib.L.verif_dctx_tmpOutBuffer(s.cd.ctx)
+            got = ctypes.string_at(tb, 61441)
+            if got[6145:] != content[6145:61441]:
+                acc.fail("prop_fail", "ddstale: tmpOutBuffer[6145,61441) is not the history", det); return
+            acc.stats["ddstale_prefix_is_history" if got[:6145] == content[:6145] else "ddstale_prefix_is_not_history"] += 1
+        pos = cons; outb = bytes(out)
+        for _ in range(50):
+            if ret == 0 and pos >= len(fr): break
+            kind, info = s.call(fr[pos:], rng.choice([100, 4096, 70000]))
+            acc.evals += 1
+            if kind != "ok":
+                acc.fail("prop_fail", "ddstale later call: %s %s" % (kind, info), det); return
+            cons, out, ret = info
+            pos += cons; outb += bytes(out)
+            if ret < 0: break
+        if ret != 0 or outb != content:
+            acc.fail("prop_fail", "ddstale: frame not decoded to its content (ret %d, %d bytes)" % (ret, len(outb)), det); return
+        if s.corr:
+            acc.fail("corr_fail", "model/code disagree: " + str(s.corr), det)
+        acc.keys.add(hashlib.sha1(fr).hexdigest())
+    finally:
+        for k, v in s.stages.items(): acc.stats["rest_" + k] += v
+        s.free()
+
 def k_maxblock(st, acc, rng, case):
     """Directed: a block whose stored size equals the frame's maximum block size EXACTLY (the header check is
     `>`), compressed (hand-built: all literals) or uncompressed, with/without block checksum, fed in pieces so
@@ -647,6 +705,7 @@ def run_case(st, case):
     elif kind == "corpus": k_corpus(st, acc, rng, case)
     elif kind == "recycle": k_recycle(st, acc, rng, case)
     elif kind == "maxblock": k_maxblock(st, acc, rng, case)
+    elif kind == "ddstale": k_ddstale(st, acc, rng, case)
     elif kind == "infodict":
         for j in range(5):
             ev, f = F.run_info_then_dict(st, rng)
